@@ -2,9 +2,10 @@
     memory / postgres: the tool validates its arguments, sends ONE Admin API request and hands the answer back;
     Model/ManageProxy.v), composed with the request layer of Properties/C14admin.v.  Only statements; proofs are
     [exact] of lemmas from Proofs/ManageProxyProofs.v. *)
+From Coq Require Import String.
 From Coq Require Import List ZArith NArith Bool.
 From HK Require Import Model.Queue Model.QueueMon Model.Headers Model.Publish Model.ManageGlue Model.ManageProxy
-  Proofs.QueueBase Proofs.QueueInv Proofs.ManageGlueProofs Proofs.ManageProxyProofs.
+  Gen.AdminProxy Proofs.QueueBase Proofs.QueueInv Proofs.ManageGlueProofs Proofs.ManageProxyProofs Proofs.AdminProxyShape.
 Import ListNotations.
 Open Scope Z_scope.
 
@@ -120,6 +121,45 @@ Theorem C14proxy_reads_do_not_write : forall e fs s s' r sent seen,
   proxy_read e fs s = (s', r, (sent, seen)) -> s' = s /\ (sent <= 3)%nat /\ (seen <= sent)%nat.
 Proof. exact reads_retry_but_do_not_write. Qed.
 
+(** the source read on this run has the shape the model of callAdminJSON assumes: one client.Do, inside
+    [for attempt := 1; attempt <= maxAttempts; attempt++]; [maxAttempts := 1], raised (to adminProxyRetryMaxGET = 3) only under
+    the GET test; every [continue] directly under shouldRetryAdminProxyCall(attempt, maxAttempts, ..), whose first statement
+    is [if attempt >= maxAttempts { return false }]; retry statuses 408 429 500 502 503 504 *)
+Theorem C14proxy_source_shape :
+  ap_shape_ok = true /\ ap_only_get_raises = true /\ ap_retries_guarded = true /\ ap_last_attempt_final = true
+  /\ ap_attempts_default = 1 /\ ap_attempts_get = ap_retry_max_get /\ ap_retry_max_get = 3
+  /\ ap_retry_statuses = [408; 429; 500; 502; 503; 504].
+Proof. exact source_shape. Qed.
+
+(** every queue-mutation tool function sends exactly one kind of request through callAdminJSON: POST - the method that gets
+    one attempt - to the endpoint of its own operation (by-filter: the global path or the endpoint-scoped path of the same
+    verb); and no tool function proxies anything but GET and POST *)
+Theorem C14proxy_mutation_tools_post_once :
+  mutation_tool_calls =
+  [("toolMessagesCancel", [("POST", "/messages/cancel")]);
+   ("toolMessagesRequeue", [("POST", "/messages/requeue")]);
+   ("toolMessagesResume", [("POST", "/messages/resume")]);
+   ("toolDLQRequeue", [("POST", "/dlq/requeue")]);
+   ("toolDLQDelete", [("POST", "/dlq/delete")]);
+   ("toolMessagesCancelByFilter", [("POST", "/messages/cancel_by_filter|managedEndpointMessageActionPath(cancel_by_filter)")]);
+   ("toolMessagesRequeueByFilter", [("POST", "/messages/requeue_by_filter|managedEndpointMessageActionPath(requeue_by_filter)")]);
+   ("toolMessagesResumeByFilter", [("POST", "/messages/resume_by_filter|managedEndpointMessageActionPath(resume_by_filter)")])]%string.
+Proof. exact mutation_tools_post_once. Qed.
+
+Theorem C14proxy_proxied_methods :
+  forallb (fun e => forallb (fun c => (String.eqb (fst c) "GET" || String.eqb (fst c) "POST")%string) (snd e)) ap_tool_calls = true.
+Proof. exact proxied_methods. Qed.
+
+(** proxy mode and direct mode agree: with the transport intact, a token the Admin server accepts and the endpoint allowed,
+    a tool call in Admin-proxy mode leaves the store and answers exactly as the same call in direct (SQLite) mode does - so
+    every theorem of Properties/C14admin.v about the MCP tools (selection exact, limit, counts, preview) holds for the proxied
+    tools as well.  ([audit_normal]: reason / request id / principal as parseString returns them - trimmed - and within the
+    length caps validateMutationAuditFields enforces.) *)
+Theorem C14proxy_agrees_with_direct : forall e now t s,
+  xe_auth e = true -> xe_allowed e = true -> xe_principal e <> [] -> audit_normal (xe_principal e) (tool_audit t) ->
+  fst (proxy_request e now t [] s) = mcp_request (direct_env e) now (direct_tool e t) s.
+Proof. exact proxy_agrees_with_direct. Qed.
+
 (** non-vacuity: the lost answer (applied once, reported as an error, the second scripted attempt never happens), and
     what a second attempt for writes would do (two messages canceled for limit 1, one reported) *)
 Example C14proxy_ex_lost_answer :
@@ -148,3 +188,7 @@ Print Assumptions C14proxy_at_most_once.
 Print Assumptions C14proxy_at_most_once_state.
 Print Assumptions C14proxy_attempt_bounds.
 Print Assumptions C14proxy_reads_do_not_write.
+Print Assumptions C14proxy_source_shape.
+Print Assumptions C14proxy_mutation_tools_post_once.
+Print Assumptions C14proxy_proxied_methods.
+Print Assumptions C14proxy_agrees_with_direct.
